@@ -50,6 +50,18 @@ class Build:
         return self.harness_ok
 
 
+def regenerate_tables():
+    """T: finite tables extracted from the real expander, written as a Lean file that Props/Tables.lean re-proves."""
+    r = sh([XCHECK, 'tables'], timeout=600)
+    path = f'{LEAN}/DeriveExModel/Generated/Tables.lean'
+    if r.returncode != 0 or 'namespace DX.Generated' not in r.stdout:
+        return False
+    old = open(path).read() if os.path.exists(path) else ''
+    if old != r.stdout:
+        open(path, 'w').write(r.stdout)
+    return True
+
+
 def audit_theorems(prop, modules_theorems):
     """#print axioms for every property theorem; returns (results, log).
     results: list of dict(name, ok, axioms, why)."""
